@@ -108,7 +108,8 @@ _SHARD_STATE = {}
 
 
 def _run_shard(args):
-    cname, shard, nshards, deadline = args
+    cname, shard, nshards, deadline = args[:4]
+    stop = args[4] if len(args) > 4 else None          # (start, stride, stop): used to re-run the cases of a shard one by one
     clause, cases = _SHARD_STATE[cname]
     evals = trans = nt = 0
     sums = {}
@@ -117,7 +118,7 @@ def _run_shard(args):
     viols = []
     done_all = True
     distinct = set()
-    for idx in range(shard, len(cases), nshards):
+    for idx in range(shard, len(cases) if stop is None else stop, nshards):
         if deadline is not None and (evals & 15) == 0 and time.time() > deadline:
             done_all = False
             break
@@ -175,13 +176,25 @@ def run_case_clause(clause, tier, seed, jobs=NPROC):
         raise HarnessError("clause %s generated no case" % clause.name)
     _SHARD_STATE[clause.name] = (clause, cases)
     deadline = (t0 + clause.cap_s) if clause.cap_s else None
-    nshards = max(1, min(jobs, len(cases)))
-    if nshards == 1 or os.environ.get("VERIF_SERIAL"):
+    from mc import par
+    nshards = max(1, min(jobs * 4, len(cases)))
+    if jobs <= 1 or os.environ.get("VERIF_SERIAL"):
+        nshards = 1
         results = [_run_shard((clause.name, s, nshards, deadline)) for s in range(nshards)]
     else:
-        ctx = mp.get_context("fork")
-        with ctx.Pool(nshards) as pool:
-            results = pool.map(_run_shard, [(clause.name, s, nshards, deadline) for s in range(nshards)])
+        results = par.pmap(_run_shard, [(clause.name, s, nshards, deadline) for s in range(nshards)], jobs)
+        dead = [s for s, r in enumerate(results) if isinstance(r, par.Died)]
+        if dead:
+            # a worker was killed (SIGSEGV / SIGBUS inside the library): re-run the cases of its shard one per task to find the culprit(s)
+            singles = [(clause.name, idx, nshards, deadline, idx + 1) for s in dead for idx in range(s, len(cases), nshards)][:4000]
+            res1 = par.pmap(_run_shard, singles, jobs)
+            results = [r for r in results if not isinstance(r, par.Died)]
+            for task, r in zip(singles, res1):
+                if isinstance(r, par.Died):
+                    idx = task[1]
+                    v = {"key": "process-died", "msg": "the call killed the interpreter (%s)" % r.describe(), "case": cases[idx], "idx": idx}
+                    r = (1, 1, 1, {"process-died": 1}, [v], True, 1, {"process-died": 1}, {}, [])
+                results.append(r)
     keycount = {}
     nviolcases = 0
     sums = {}
